@@ -384,7 +384,9 @@ def strictness(repo, run, rule):
         if q.status != 'return':
             continue
         if q.ret is not None and q.ret.const is True:
-            raise AnalysisError('maybe_keep keeps some nodes unconditionally (not recognised)')
+            run.violation(rule, mk, 'protecting predicate returns True under [%s]' % tr.describe(q, 4), 'an older entry survives a deleting node for a reason other than strictly higher priority (kept whenever %s)' % (tr.describe(q, 3) or 'reached'))
+            n += 1
+            continue
         a = _prio_call(q.ret)
         if a is None:
             raise AnalysisError('maybe_keep does not end in `return node.ayns.has_priority_over(other_node)` (returns %s)' % (q.ret.text[:60] if q.ret is not None else None))
